@@ -154,6 +154,30 @@ def lossless_bool_subpackets(ctx, P):
                     ok = True
             ctx.check(key, 'R-table', desc, ok, function=p, site='%s:%d' % (b.r['file'], b.line(i)), table=[list(x) for x in tab] if tab else None)
     ctx.floor(P + ':S05-8:floor', 'boolean subpacket parse sites', n, 3)
+    # the same rule for flag octets reduced to a bool anywhere in the subpacket parser (functions AND closures, e.g.
+    # `read_u8().map(|v| v == 0x80)` for the notation flags): a bool computed by comparing a parsed octet with a constant must
+    # not be returned or stored - every other octet value collapses into `false` and is re-encoded as a different octet
+    from rules import panics
+    hits = []
+    for p, r in sorted(ctx.f.bodies.items()):
+        if not p.startswith('packet::signature::de::'):
+            continue
+        b = ctx.wrap(r)
+        for i, blk in enumerate(b.blocks):
+            if blk['c']:
+                continue
+            for st in blk['s']:
+                rr = st['r']
+                if rr['k'] == 'bin' and rr['op'] in ('Eq', 'Ne') and any('k' in o and o['k'].get('ty') == 'u8' for o in rr['o']):
+                    dep = panics.forward_from(b, st['d']['l'])
+                    to_ret = 0 in dep and b.r['locals'][0]['ty'] == 'bool'
+                    to_agg = any(s2['r']['k'] == 'agg' and s2['r'].get('ak') == 'adt' and panics._mentions(s2['r'].get('o', []), dep)
+                                 for bl in b.blocks if not bl['c'] for s2 in bl['s'])
+                    if to_ret or to_agg:
+                        hits.append((p, b, i))
+    ctx.check(P + ':S05-8:no-octet-collapsed-to-bool', 'R-table', 'no parsed octet of a signature subpacket is reduced to a boolean by `== constant` and then kept (it is matched value by value, other values rejected)',
+              not hits, function=hits[0][0] if hits else 'packet::signature::de', site=site(hits[0][1], hits[0][2]) if hits else None,
+              missing=None if not hits else 'the flag octet is kept as `octet == const`: every other value is hashed and written back as a different octet than the packet contains')
 
 
 RFC_IDS = {   # RFC 9580 §9.1–9.6, §5.2.1 (enum discriminants = wire ids)
